@@ -151,6 +151,8 @@ func Leaves(level int) []Leaf {
 		add("object-addl-str", "object", J{"type": "object", "properties": J{"k": J{"type": "string"}}, "additionalProperties": J{"type": "string"}}, nil, true)
 		add("object-addl-arr", "object", J{"type": "object", "properties": J{"k": J{"type": "string"}}, "additionalProperties": J{"type": "array", "items": J{"type": "string"}}}, nil, true)
 		add("object-addl-true", "object", J{"type": "object", "properties": J{"k": J{"type": "string"}}, "required": A{"k"}, "additionalProperties": true}, nil, true)
+		add("object-addl-ref", "object", J{"type": "object", "properties": J{"k": J{"type": "string"}}, "additionalProperties": J{"$ref": "#/$defs/MS"}}, nil, true)
+		ls[len(ls)-1].Defs = mv
 		add("multi-type", "any", J{"type": A{"string", "integer"}}, nil, false)
 	}
 	return ls
